@@ -16,7 +16,7 @@ import (
 // 1: leading dashes
 // 2: option
 // 3: =arg
-var isOptionRegex = regexp.MustCompile(`^(--?)([^=]+)(.*?)$`)
+var isOptionRegex = regexp.MustCompile(`(?s)^(--?)([^=]+)(.*?)$`)
 
 // 1: leading dashes or /
 // 2: option
